@@ -13,6 +13,7 @@ import (
 	"strconv"
 	"strings"
 	"sync"
+	"sync/atomic"
 	"time"
 
 	sse "github.com/tmaxmax/go-sse"
@@ -236,6 +237,7 @@ func cmdDispatchRace(args []string) {
 		q, _ := http.NewRequestWithContext(ctx, http.MethodGet, "http://verif.invalid/", http.NoBody)
 		cn := c.NewConnection(q)
 		var delivered sync.Map
+		var lateCalls atomic.Int64
 		done := make(chan error, 1)
 		go func() { done <- cn.Connect() }()
 		var wg sync.WaitGroup
@@ -246,32 +248,49 @@ func cmdDispatchRace(args []string) {
 			go func() {
 				defer wg.Done()
 				rng := rand.New(rand.NewSource(seed*31 + int64(run*7+g)))
-				var rem []sse.EventCallbackRemover
+				type subn struct {
+					remove  sse.EventCallbackRemover
+					removed *atomic.Bool
+				}
+				var subs []subn
+				unsub := func(k int) {
+					subs[k].remove()
+					subs[k].removed.Store(true) // from here on the callback must never run again
+					if rng.Intn(2) == 0 {
+						subs[k].remove() // calling it again is harmless
+					}
+					subs = append(subs[:k], subs[k+1:]...)
+				}
 				for {
 					select {
 					case <-stop:
-						for _, r := range rem {
-							r()
-							r()
+						for len(subs) > 0 {
+							unsub(0)
 						}
 						return
 					default:
 					}
-					cb := func(e sse.Event) { delivered.Store(e.Data, true) }
+					if len(subs) >= 6 {
+						unsub(rng.Intn(len(subs)))
+						continue
+					}
+					removed := new(atomic.Bool)
+					cb := func(e sse.Event) {
+						if removed.Load() {
+							lateCalls.Add(1)
+						}
+						delivered.Store(e.Data, true)
+					}
 					switch rng.Intn(4) {
 					case 0:
-						rem = append(rem, cn.SubscribeToAll(cb))
+						subs = append(subs, subn{cn.SubscribeToAll(cb), removed})
 					case 1:
-						rem = append(rem, cn.SubscribeEvent([]string{"a", "b", ""}[rng.Intn(3)], cb))
+						subs = append(subs, subn{cn.SubscribeEvent([]string{"a", "b", ""}[rng.Intn(3)], cb), removed})
 					case 2:
-						rem = append(rem, cn.SubscribeMessages(cb))
+						subs = append(subs, subn{cn.SubscribeMessages(cb), removed})
 					default:
-						if len(rem) > 0 {
-							k := rng.Intn(len(rem))
-							rem[k]()
-							if rng.Intn(2) == 0 {
-								rem = append(rem[:k], rem[k+1:]...)
-							}
+						if len(subs) > 0 {
+							unsub(rng.Intn(len(subs)))
 						}
 					}
 					runtime.Gosched()
@@ -294,6 +313,9 @@ func cmdDispatchRace(args []string) {
 		<-done
 		res.eval(1)
 		res.nontrivial("run" + strconv.Itoa(run))
+		if n := lateCalls.Load(); n > 0 {
+			res.violate(fmt.Sprintf("%d callback invocations after the callback's unsubscribe function had returned (run %d)", n, run), "dispatch:late", map[string]any{"driver": "dispatch-race", "run": run})
+		}
 	}
 	res.sample(map[string]any{"runs": 4, "events_per_run": *events, "goroutines_subscribing_and_unsubscribing": 4})
 	res.write(*out)
